@@ -263,6 +263,25 @@ def run(ctx):
                                  observed=out[0] if out[0] != "ok" else "a different tree",
                                  cls="big-operand", sig=["big", vname.split(":")[0], mode])
                 ctx.cls("big:" + vname.split(":")[0])
+    # ---- idioms: every built-in call compared / combined with the constants idioms are made of --
+    # (indexof(..) ge 0, length(..) eq 0, contains(..) eq true, ... ): the parser builds the
+    # tree that is written, it does not recognise idioms
+    consts = [T.I(0), T.I(-1), T.I(1), T.lit("float", "0.0"), T.S(""), T.S("x"), T.lit("bool", "true"),
+              T.lit("bool", "false"), T.lit("null", "null"), T.lit("int", "-0"), T.lit("int", "00")]
+    for fname in sorted(fullgen.BUILTINS):
+        lo, hi = fullgen.BUILTINS[fname]
+        for nargs in sorted({lo, hi}):
+            callt = ("call", fname, tuple(T.ident("q%d" % i) if i != 1 else T.S("abc") for i in range(nargs)))
+            for op in ("eq", "ne", "lt", "le", "gt", "ge", "add", "sub", "and", "or"):
+                for c in consts:
+                    j += 1
+                    if not ctx.mine(j):
+                        continue
+                    for t in (mk(op, callt, c), mk(op, c, callt), ("un", "not", mk(op, callt, c))):
+                        for mode in ("min", "full"):
+                            text = to_text(t, mode)
+                            judge(ctx, t, mode, text, "idiom")
+        ctx.cls("idiom:" + fname)
     # ---- random part ----------------------------------------------------------------
     rng = ctx.rng("rand")
     o = fullgen.Opts()
